@@ -10,3 +10,464 @@ Definition deps_respected : bool :=
 
 Lemma deps_respected_true : deps_respected = true.
 Proof. vm_compute. reflexivity. Qed.
+
+(* ---------------------------------------------------------------- look-ups *)
+
+Lemma spec_lookup_in : forall l a u, spec_lookup l a = Some u -> In (u, a) l.
+Proof.
+  induction l as [|x r IH]; intros a u H; simpl in H; [discriminate|].
+  destruct (spec_lookup r a) as [v|] eqn:E.
+  - inversion H. subst. right. apply IH. exact E.
+  - destruct (N.eqb a (oid x)) eqn:Ea; [|discriminate].
+    inversion H. apply N.eqb_eq in Ea. left. destruct x as [xu xi]. unfold oid, ouid in *. simpl in *. subst. reflexivity.
+Qed.
+
+Lemma spec_lookup_none : forall l a, spec_lookup l a = None <-> (forall u, ~ In (u, a) l).
+Proof.
+  induction l as [|x r IH]; intro a; simpl.
+  - split; [intros _ u []|reflexivity].
+  - destruct (spec_lookup r a) as [v|] eqn:E.
+    + split; [discriminate|]. intro H. exfalso. apply (H v). right. apply spec_lookup_in. exact E.
+    + destruct (N.eqb a (oid x)) eqn:Ea.
+      * split; [discriminate|]. intro H. exfalso. apply N.eqb_eq in Ea.
+        destruct x as [xu xi]. unfold oid in Ea. simpl in Ea. subst. apply (H xu). left. reflexivity.
+      * split; [|reflexivity]. intros _ u [Hx|Hr].
+        -- subst x. unfold oid in Ea. simpl in Ea. rewrite N.eqb_refl in Ea. discriminate.
+        -- apply (proj1 (IH a) E u Hr).
+Qed.
+
+Lemma spec_lookup_app : forall l l' a,
+  spec_lookup (l ++ l') a = match spec_lookup l' a with Some u => Some u | None => spec_lookup l a end.
+Proof.
+  induction l as [|x r IH]; intros l' a; simpl.
+  - destruct (spec_lookup l' a); reflexivity.
+  - rewrite IH. destruct (spec_lookup l' a); reflexivity.
+Qed.
+
+(* with unique ids the object found is THE object carrying the id *)
+Lemma spec_lookup_unique : forall l a u, NoDup (map oid l) -> In (u, a) l -> spec_lookup l a = Some u.
+Proof.
+  induction l as [|x r IH]; intros a u Hnd Hin; [contradiction|].
+  simpl in Hnd. inversion Hnd as [|? ? Hnot Hnd']. subst. simpl.
+  destruct Hin as [Hx|Hr].
+  - subst x. assert (E : spec_lookup r a = None).
+    { apply spec_lookup_none. intros v Hv. apply Hnot. unfold oid at 1. simpl.
+      change a with (oid (v, a)). apply in_map. exact Hv. }
+    rewrite E. unfold oid, ouid. simpl. rewrite N.eqb_refl. reflexivity.
+  - rewrite (IH a u Hnd' Hr). reflexivity.
+Qed.
+
+(* a reference that resolves is bound to an object of the right library carrying that id *)
+Lemma resolve_ok_in o r u : resolve o r = Ok u -> In (u, r_id r) (lib_list o (r_lib r)).
+Proof.
+  unfold resolve. destruct (if r_hash r then None else nohash_exn (r_site r)); [discriminate|].
+  unfold lookup. destruct (spec_lookup (lib_list o (r_lib r)) (r_id r)) as [v|] eqn:E; [|discriminate].
+  intro H. inversion H. subst. apply spec_lookup_in. exact E.
+Qed.
+
+(* a dangling reference is a broken-reference error *)
+Lemma resolve_dangling o r :
+  r_hash r = true -> (forall u, ~ In (u, r_id r) (lib_list o (r_lib r))) -> resolve o r = Raise DaeBrokenRef.
+Proof.
+  intros Hh Hn. unfold resolve. rewrite Hh. unfold lookup.
+  rewrite (proj2 (spec_lookup_none _ _) Hn). reflexivity.
+Qed.
+
+(* two references to the same id of the same library are bound to the identical object *)
+Lemma resolve_same o r1 r2 u1 u2 :
+  resolve o r1 = Ok u1 -> resolve o r2 = Ok u2 -> r_lib r1 = r_lib r2 -> r_id r1 = r_id r2 -> u1 = u2.
+Proof.
+  unfold resolve. intros H1 H2 El Ei.
+  destruct (if r_hash r1 then None else nohash_exn (r_site r1)); [discriminate|].
+  destruct (if r_hash r2 then None else nohash_exn (r_site r2)); [discriminate|].
+  rewrite El, Ei in H1. destruct (lookup o (r_lib r2) (r_id r2)); [|discriminate].
+  inversion H1. inversion H2. subst. reflexivity.
+Qed.
+
+(* with unique ids in the library, it is THE library object carrying the id *)
+Lemma resolve_the_object o r u :
+  r_hash r = true -> NoDup (map oid (lib_list o (r_lib r))) -> In (u, r_id r) (lib_list o (r_lib r)) ->
+  resolve o r = Ok u.
+Proof.
+  intros Hh Hnd Hin. unfold resolve. rewrite Hh. unfold lookup.
+  rewrite (spec_lookup_unique _ _ _ Hnd Hin). reflexivity.
+Qed.
+
+Lemma lib_list_app o o' l : lib_list (o ++ o') l = lib_list o l ++ lib_list o' l.
+Proof. unfold lib_list. rewrite filter_app, map_app. reflexivity. Qed.
+
+(* libraries only grow: once bound, later appends of OTHER ids do not change the binding *)
+Lemma resolve_stable o o' r u :
+  resolve o r = Ok u -> (forall v, ~ In (v, r_id r) (lib_list o' (r_lib r))) -> resolve (o ++ o') r = Ok u.
+Proof.
+  unfold resolve. destruct (if r_hash r then None else nohash_exn (r_site r)); [discriminate|].
+  unfold lookup. rewrite lib_list_app, spec_lookup_app. intros H Hn.
+  rewrite (proj2 (spec_lookup_none _ _) Hn). exact H.
+Qed.
+
+(* missing '#': the documented class for that site, before any look-up *)
+Lemma resolve_nohash o r x : r_hash r = false -> nohash_exn (r_site r) = Some x -> resolve o r = Raise x.
+Proof. intros Hh Hx. unfold resolve. rewrite Hh, Hx. reflexivity. Qed.
+
+Lemma filter_map_all_lib {A} (l : lib) (f : A -> obj) (ms : list A) :
+  filter (fun p : lib * obj => lib_eqb (fst p) l) (map (fun u => (l, f u)) ms) = map (fun u => (l, f u)) ms.
+Proof.
+  induction ms as [|m r IH]; simpl; [reflexivity|]. rewrite lib_eqb_refl, IH. reflexivity.
+Qed.
+
+(* saved references: '#' + current id resolves, in the written library, to the object itself *)
+Lemma saved_ref_resolves l cid members u :
+  In u members -> NoDup (map cid members) ->
+  resolve (written_lib l cid members) (saved_ref l cid u) = Ok u.
+Proof.
+  intros Hin Hnd. apply resolve_the_object; simpl.
+  - reflexivity.
+  - unfold written_lib, lib_list. rewrite filter_map_all_lib. rewrite !map_map. simpl. exact Hnd.
+  - unfold written_lib, lib_list. rewrite filter_map_all_lib. rewrite map_map. simpl.
+    apply in_map_iff. exists u. split; [reflexivity|exact Hin].
+Qed.
+
+(* ---------------------------------------------------------------- order of the libraries *)
+
+(* the loader sees the document only through "the libraries of kind k, in document order" *)
+Lemma step_contents mk d1 d2 k s :
+  (forall k', contents_of d1 k' = contents_of d2 k') -> step mk d1 k s = step mk d2 k s.
+Proof.
+  intro H.
+  assert (Hi : forall k', items_of d1 k' = items_of d2 k') by (intro k'; unfold items_of; rewrite H; reflexivity).
+  assert (Hn : node_groups_of d1 = node_groups_of d2) by (unfold node_groups_of; rewrite H; reflexivity).
+  assert (Hs : scenes_of d1 = scenes_of d2) by (unfold scenes_of; rewrite H; reflexivity).
+  assert (Hd : default_of d1 = default_of d2) by (unfold default_of; rewrite H; reflexivity).
+  destruct k; unfold step; rewrite ?Hi, ?Hn, ?Hs, ?Hd; reflexivity.
+Qed.
+
+Lemma run_steps_contents mk d1 d2 :
+  (forall k', contents_of d1 k' = contents_of d2 k') ->
+  forall steps s, run_steps mk d1 steps s = run_steps mk d2 steps s.
+Proof.
+  intro H. induction steps as [|k r IH]; intro s; simpl; [reflexivity|].
+  rewrite (step_contents mk d1 d2 k s H). destruct (step mk d2 k s); try reflexivity. apply IH.
+Qed.
+
+Lemma filter_le_one {A} (key : A -> lib) (k : lib) (d : list A) :
+  NoDup (map key d) -> length (filter (fun p => lib_eqb (key p) k) d) <= 1.
+Proof.
+  induction d as [|x r IH]; intro Hnd; simpl; [lia|].
+  inversion Hnd as [|? ? Hnot Hnd']. subst.
+  destruct (lib_eqb (key x) k) eqn:E.
+  - apply lib_eqb_eq in E. simpl.
+    assert (Hz : filter (fun p => lib_eqb (key p) k) r = []).
+    { destruct (filter (fun p => lib_eqb (key p) k) r) as [|y ys] eqn:F; [reflexivity|].
+      exfalso. assert (Hy : In y (filter (fun p => lib_eqb (key p) k) r)) by (rewrite F; left; reflexivity).
+      apply filter_In in Hy. destruct Hy as [Hy1 Hy2]. apply lib_eqb_eq in Hy2.
+      apply Hnot. rewrite E, <- Hy2. apply in_map. exact Hy1. }
+    rewrite Hz. simpl. lia.
+  - apply IH. exact Hnd'.
+Qed.
+
+Lemma perm_short_eq {A} (a b : list A) : Permutation a b -> length a <= 1 -> a = b.
+Proof.
+  intros P L. destruct a as [|x [|y a]]; simpl in L.
+  - apply Permutation_nil in P. subst. reflexivity.
+  - apply Permutation_length_1_inv in P. subst. reflexivity.
+  - lia.
+Qed.
+
+Lemma perm_filter {A} (f : A -> bool) (l l' : list A) :
+  Permutation l l' -> Permutation (filter f l) (filter f l').
+Proof.
+  induction 1 as [|x l l' P IH|x y l|l l' l'' P1 IH1 P2 IH2]; simpl.
+  - constructor.
+  - destruct (f x); [constructor|]; exact IH.
+  - destruct (f x), (f y); try apply Permutation_refl. apply perm_swap.
+  - eapply Permutation_trans; eassumption.
+Qed.
+
+Lemma contents_perm d1 d2 :
+  Permutation d1 d2 -> NoDup (map fst d1) -> forall k, contents_of d1 k = contents_of d2 k.
+Proof.
+  intros P Hnd k. unfold contents_of. f_equal.
+  apply perm_short_eq.
+  - apply perm_filter. exact P.
+  - apply (filter_le_one (@fst lib content) k d1 Hnd).
+Qed.
+
+(* ---------------------------------------------------------------- the retry loop: fuel *)
+
+Section Fuel.
+  Variable mk : mask.
+  Variable sc : scope.
+  Variable o : objs.
+
+  Lemma pass_counts : forall nodes loaded pending errs succ l' p' e' s',
+    pass mk sc o nodes loaded pending errs succ = (l', p', e', s', None) ->
+    length p' <= length pending + length nodes /\
+    (s' = true -> succ = true \/ length p' < length pending + length nodes).
+  Proof.
+    induction nodes as [|n r IH]; intros loaded pending errs succ l' p' e' s' H.
+    - simpl in H. inversion H. subst. simpl. split; [lia|]. intro; left; assumption.
+    - simpl in H.
+      destruct (load_children (load_child sc o loaded) mk (n_children n) [] errs) as [[vals errs1] st].
+      destruct st as [|x|].
+      + destruct (IH _ _ _ _ _ _ _ _ H) as [A B]. simpl. split; [lia|]. intro Hs. right.
+        destruct (B Hs) as [_|B']; lia.
+      + discriminate.
+      + destruct (IH _ _ _ _ _ _ _ _ H) as [A B]. rewrite app_length in A, B. simpl in A, B. simpl.
+        split; [lia|]. intro Hs. destruct (B Hs) as [B'|B']; [left; exact B'|right; lia].
+  Qed.
+
+  Lemma retry_unfold f loaded p ps errs :
+    retry mk sc o (S f) loaded (p :: ps) errs true =
+    let '(l', p', e', s', ab) := pass mk sc o (p :: ps) loaded [] errs false in
+    match ab with Some x => NAborted l' e' x | None => retry mk sc o f l' p' e' s' end.
+  Proof. reflexivity. Qed.
+
+  Lemma retry_fuel : forall fuel loaded pending errs succ,
+    length pending < fuel -> retry mk sc o fuel loaded pending errs succ <> NOutOfFuel.
+  Proof.
+    induction fuel as [|f IH]; intros loaded pending errs succ Hlt; [lia|].
+    destruct pending as [|p ps]; [simpl; discriminate|].
+    destruct succ; [|simpl; discriminate].
+    rewrite retry_unfold.
+    destruct (pass mk sc o (p :: ps) loaded [] errs false) as [[[[l' p'] e'] s'] ab] eqn:E.
+    destruct ab as [x|]; [discriminate|].
+    destruct (pass_counts _ _ _ _ _ _ _ _ _ E) as [A B]. simpl in A, B.
+    destruct s'.
+    - apply IH. destruct (B eq_refl) as [B'|B']; [discriminate|]. simpl in Hlt. lia.
+    - destruct f; destruct p'; simpl; discriminate.
+  Qed.
+
+  Lemma load_group_fuel nodes loaded errs : load_group mk sc o nodes loaded errs <> NOutOfFuel.
+  Proof.
+    unfold load_group.
+    destruct (pass mk sc o nodes loaded [] errs false) as [[[[l' p'] e'] s'] ab].
+    destruct ab; [discriminate|]. apply retry_fuel. lia.
+  Qed.
+End Fuel.
+
+Lemma load_node_groups_fuel mk o : forall groups loaded errs l e ab oof,
+  load_node_groups mk o groups loaded errs = (l, e, ab, oof) -> oof = false.
+Proof.
+  induction groups as [|g r IH]; intros loaded errs l e ab oof H; simpl in H.
+  - inversion H. reflexivity.
+  - destruct (load_group mk InLibrary o g loaded errs) as [l1 left1 e1|l1 e1 x|] eqn:E.
+    + destruct (report_leftovers mk left1 e1) as [e2 ab2]. destruct ab2.
+      * inversion H. reflexivity.
+      * eapply IH. exact H.
+    + inversion H. reflexivity.
+    + exfalso. exact (load_group_fuel mk InLibrary o g loaded errs E).
+Qed.
+
+Lemma load_scene_fuel mk o s errs e : load_scene mk o s errs <> (e, inr tt).
+Proof.
+  unfold load_scene.
+  destruct (load_group mk InScene o (s_nodes s) [] errs) as [l1 left1 e1|l1 e1 x|] eqn:E.
+  - destruct left1; discriminate.
+  - discriminate.
+  - exfalso. exact (load_group_fuel mk InScene o (s_nodes s) [] errs E).
+Qed.
+
+Lemma load_scenes_fuel mk o : forall ss loaded errs l e ab oof,
+  load_scenes mk o ss loaded errs = (l, e, ab, oof) -> oof = false.
+Proof.
+  induction ss as [|s r IH]; intros loaded errs l e ab oof H; simpl in H.
+  - inversion H. reflexivity.
+  - destruct (load_scene mk o s errs) as [e1 [[v|x]|[]]] eqn:E.
+    + eapply IH. exact H.
+    + destruct (catch x).
+      * unfold handle in H. destruct (masked mk e0); [eapply IH; exact H|inversion H; reflexivity].
+      * inversion H. reflexivity.
+    + exfalso. exact (load_scene_fuel mk o s errs e1 E).
+Qed.
+
+Lemma step_fuel mk d k s : step mk d k s <> DOutOfFuel.
+Proof.
+  destruct k; unfold step; try discriminate.
+  - destruct (load_lib (load_item (st_objs s)) mk (items_of d LImages) [] (st_errs s)) as [[v e] ab]. destruct ab; discriminate.
+  - destruct (load_lib (load_item (st_objs s)) mk (items_of d LEffects) [] (st_errs s)) as [[v e] ab]. destruct ab; discriminate.
+  - destruct (load_lib (load_item (st_objs s)) mk (items_of d LMaterials) [] (st_errs s)) as [[v e] ab]. destruct ab; discriminate.
+  - destruct (load_lib (load_item (st_objs s)) mk (items_of d LAnimations) [] (st_errs s)) as [[v e] ab]. destruct ab; discriminate.
+  - destruct (load_lib (load_item (st_objs s)) mk (items_of d LGeometry) [] (st_errs s)) as [[v e] ab]. destruct ab; discriminate.
+  - destruct (load_lib (load_item (st_objs s)) mk (items_of d LControllers) [] (st_errs s)) as [[v e] ab]. destruct ab; discriminate.
+  - destruct (load_lib (load_item (st_objs s)) mk (items_of d LLights) [] (st_errs s)) as [[v e] ab]. destruct ab; discriminate.
+  - destruct (load_lib (load_item (st_objs s)) mk (items_of d LCameras) [] (st_errs s)) as [[v e] ab]. destruct ab; discriminate.
+  - destruct (load_node_groups mk (st_objs s) (node_groups_of d) (st_nodes s) (st_errs s)) as [[[l e] ab] oof] eqn:E.
+    rewrite (load_node_groups_fuel _ _ _ _ _ _ _ _ _ E). destruct ab; discriminate.
+  - destruct (load_scenes mk (st_objs s) (scenes_of d) [] (st_errs s)) as [[[l e] ab] oof] eqn:E.
+    rewrite (load_scenes_fuel _ _ _ _ _ _ _ _ _ E). destruct ab; discriminate.
+  - destruct (default_of d); [|discriminate].
+    destruct (resolve (st_objs s) r); [discriminate|].
+    destruct (handle mk (st_errs s) e) as [e' ab]. destruct ab; discriminate.
+Qed.
+
+Lemma run_steps_fuel mk d : forall steps s, run_steps mk d steps s <> DOutOfFuel.
+Proof.
+  induction steps as [|k r IH]; intro s; simpl; [discriminate|].
+  destruct (step mk d k s) eqn:E; [apply IH|discriminate|exfalso; exact (step_fuel mk d k s E)].
+Qed.
+
+(* ---------------------------------------------------------------- cycles and dangling instance_node *)
+
+Lemma first_lookup_none : forall l a, (forall u, ~ In (u, a) l) -> first_lookup l a = None.
+Proof.
+  induction l as [|x r IH]; intros a H; simpl; [reflexivity|].
+  destruct (N.eqb a (oid x)) eqn:E.
+  - exfalso. apply N.eqb_eq in E. destruct x as [xu xi]. unfold oid in E. simpl in E. subst.
+    apply (H xu). left. reflexivity.
+  - apply IH. intros u Hu. apply (H u). right. exact Hu.
+Qed.
+
+Lemma children_not_done {Child Val} (f : Child -> cres Val) mk : forall cs c vals errs,
+  In c cs -> f c = CDefer -> snd (load_children f mk cs vals errs) <> SDone.
+Proof.
+  induction cs as [|c0 r IH]; intros c vals errs Hin Hd; [contradiction|].
+  simpl. destruct Hin as [->|Hin].
+  - rewrite Hd. simpl. discriminate.
+  - destruct (f c0) as [v|e|].
+    + apply (IH c _ _ Hin Hd).
+    + destruct (catch e) as [e'|]; [|simpl; discriminate].
+      unfold handle. destruct (masked mk e'); [apply (IH c _ _ Hin Hd)|simpl; discriminate].
+    + simpl. discriminate.
+Qed.
+
+Section Cycle.
+  Variable mk : mask.
+  Variable sc : scope.
+  Variable o : objs.
+  (* T: ids that can never be bound - ids of the nodes of a cycle, or an id nothing defines *)
+  Variable T : ident -> Prop.
+  Hypothesis Hlib : forall u t, T t -> ~ In (u, t) (lib_list o LNodes).
+
+  Definition blocked (n : tnode) : Prop := exists t, In (NNode t true) (n_children n) /\ T t.
+  Definition clean_loaded (loaded : list lnode) : Prop := forall ln, In ln loaded -> ~ T (snd (fst ln)).
+
+  Lemma find_node_blocked loaded t : clean_loaded loaded -> T t -> find_node sc o loaded t = None.
+  Proof.
+    intros Hc Ht.
+    assert (Hl : forall u, ~ In (u, t) (map lnode_obj loaded)).
+    { intros u Hin. apply in_map_iff in Hin. destruct Hin as [ln [E Hin]].
+      apply (Hc ln Hin). unfold lnode_obj in E. inversion E. subst. exact Ht. }
+    destruct sc; simpl.
+    - apply spec_lookup_none. intros u Hin. apply in_app_or in Hin. destruct Hin as [Hin|Hin].
+      + exact (Hlib u t Ht Hin).
+      + exact (Hl u Hin).
+    - rewrite first_lookup_none.
+      + unfold lookup. apply spec_lookup_none. intros u Hin. exact (Hlib u t Ht Hin).
+      + intros u Hin. apply filter_In in Hin. destruct Hin as [Hin _]. exact (Hl u Hin).
+  Qed.
+
+  Lemma blocked_not_done n loaded vals errs :
+    clean_loaded loaded -> blocked n ->
+    snd (load_children (load_child sc o loaded) mk (n_children n) vals errs) <> SDone.
+  Proof.
+    intros Hc [t [Hin Ht]]. apply (children_not_done _ mk _ (NNode t true) vals errs Hin).
+    simpl. rewrite (find_node_blocked loaded t Hc Ht). reflexivity.
+  Qed.
+
+  Lemma pass_blocked : forall nodes loaded pending errs succ l' p' e' s',
+    (forall n, In n nodes -> T (n_id n) -> blocked n) ->
+    clean_loaded loaded ->
+    pass mk sc o nodes loaded pending errs succ = (l', p', e', s', None) ->
+    clean_loaded l' /\
+    (forall n, In n pending -> In n p') /\
+    (forall n, In n nodes -> T (n_id n) -> In n p') /\
+    (forall n, In n p' -> In n pending \/ In n nodes).
+  Proof.
+    induction nodes as [|n r IH]; intros loaded pending errs succ l' p' e' s' Hb Hc H.
+    - simpl in H. inversion H. subst. repeat split; auto. intros n [].
+    - simpl in H.
+      pose proof (fun HT => blocked_not_done n loaded [] errs Hc (Hb n (or_introl eq_refl) HT)) as Hnd.
+      destruct (load_children (load_child sc o loaded) mk (n_children n) [] errs) as [[vals errs1] st].
+      simpl in Hnd.
+      assert (Hb' : forall n0, In n0 r -> T (n_id n0) -> blocked n0) by (intros n0 Hin; apply Hb; right; exact Hin).
+      destruct st as [|x|].
+      + assert (HnT : ~ T (n_id n)) by (intro HT; apply (Hnd HT); reflexivity).
+        assert (Hc' : clean_loaded (loaded ++ [(n_uid n, n_id n, vals)])).
+        { intros ln Hin. apply in_app_or in Hin. destruct Hin as [Hin|[<-|[]]]; [apply Hc; exact Hin|exact HnT]. }
+        destruct (IH _ _ _ _ _ _ _ _ Hb' Hc' H) as [A [B [C D]]].
+        split; [exact A|]. split; [exact B|]. split.
+        * intros n0 [<-|Hin] HT; [contradiction|apply C; assumption].
+        * intros n0 Hin. destruct (D n0 Hin) as [D1|D1]; [left; exact D1|right; right; exact D1].
+      + discriminate.
+      + destruct (IH _ _ _ _ _ _ _ _ Hb' Hc H) as [A [B [C D]]].
+        split; [exact A|]. split; [intros n0 Hin; apply B; apply in_or_app; left; exact Hin|]. split.
+        * intros n0 [<-|Hin] HT; [apply B; apply in_or_app; right; left; reflexivity|apply C; assumption].
+        * intros n0 Hin. destruct (D n0 Hin) as [D1|D1]; [|right; right; exact D1].
+          apply in_app_or in D1. destruct D1 as [D1|[<-|[]]]; [left; exact D1|right; left; reflexivity].
+  Qed.
+
+  Lemma retry_blocked : forall fuel loaded pending errs succ l left e,
+    (forall n, In n pending -> T (n_id n) -> blocked n) ->
+    clean_loaded loaded ->
+    retry mk sc o fuel loaded pending errs succ = NFinished l left e ->
+    clean_loaded l /\ (forall n, In n pending -> T (n_id n) -> In n left).
+  Proof.
+    induction fuel as [|f IH]; intros loaded pending errs succ l left e Hb Hc H.
+    - destruct pending as [|p ps]; simpl in H.
+      + inversion H. subst. split; [exact Hc|]. intros n [].
+      + destruct succ; [discriminate|]. inversion H. subst. split; [exact Hc|]. auto.
+    - destruct pending as [|p ps]; [simpl in H; inversion H; subst; split; [exact Hc|intros n []]|].
+      destruct succ; [|simpl in H; inversion H; subst; split; [exact Hc|auto]].
+      rewrite retry_unfold in H.
+      destruct (pass mk sc o (p :: ps) loaded [] errs false) as [[[[l' p'] e'] s'] ab] eqn:E.
+      destruct ab as [x|]; [discriminate|].
+      destruct (pass_blocked _ _ _ _ _ _ _ _ _ Hb Hc E) as [A [_ [C D]]].
+      assert (Hb' : forall n, In n p' -> T (n_id n) -> blocked n).
+      { intros n Hin. destruct (D n Hin) as [[]|D1]. apply Hb. exact D1. }
+      destruct (IH _ _ _ _ _ _ _ Hb' A H) as [A' C'].
+      split; [exact A'|]. intros n Hin HT. apply C'; [apply C; assumption|exact HT].
+  Qed.
+
+  Lemma load_group_blocked nodes loaded errs l left e :
+    (forall n, In n nodes -> T (n_id n) -> blocked n) ->
+    clean_loaded loaded ->
+    load_group mk sc o nodes loaded errs = NFinished l left e ->
+    clean_loaded l /\ (forall n, In n nodes -> T (n_id n) -> In n left).
+  Proof.
+    intros Hb Hc H. unfold load_group in H.
+    destruct (pass mk sc o nodes loaded [] errs false) as [[[[l' p'] e'] s'] ab] eqn:E.
+    destruct ab as [x|]; [discriminate|].
+    destruct (pass_blocked _ _ _ _ _ _ _ _ _ Hb Hc E) as [A [_ [C D]]].
+    assert (Hb' : forall n, In n p' -> T (n_id n) -> blocked n).
+    { intros n Hin. destruct (D n Hin) as [[]|D1]. apply Hb. exact D1. }
+    destruct (retry_blocked _ _ _ _ _ _ _ _ Hb' A H) as [A' C'].
+    split; [exact A'|]. intros n Hin HT. apply C'; [apply C; assumption|exact HT].
+  Qed.
+End Cycle.
+
+(* leftovers are reported as broken references; unmasked, the first one aborts the load *)
+Lemma report_leftovers_brokenref mk left errs :
+  left <> [] ->
+  In DaeBrokenRef (fst (report_leftovers mk left errs)) /\
+  (masked mk DaeBrokenRef = false -> snd (report_leftovers mk left errs) = Some DaeBrokenRef).
+Proof.
+  destruct left as [|x r]; [congruence|]. intros _. simpl. unfold handle.
+  destruct (masked mk DaeBrokenRef) eqn:M.
+  - split; [|discriminate].
+    assert (G : forall l e, In DaeBrokenRef e -> In DaeBrokenRef (fst (report_leftovers mk l e))).
+    { induction l as [|y l IH]; intros e He; simpl; [exact He|]. unfold handle. rewrite M.
+      apply IH. apply in_or_app. left. exact He. }
+    apply G. apply in_or_app. right. left. reflexivity.
+  - simpl. split; [apply in_or_app; right; left; reflexivity|reflexivity].
+Qed.
+
+(* ---------------------------------------------------------------- locality (for C08 containment) *)
+
+Lemma omapM_ext {A B} (f g : A -> outcome B) : forall l, (forall x, In x l -> f x = g x) -> omapM f l = omapM g l.
+Proof.
+  induction l as [|x r IH]; intro H; simpl; [reflexivity|].
+  rewrite (H x (or_introl eq_refl)). destruct (g x); [|reflexivity].
+  rewrite IH; [reflexivity|]. intros y Hy. apply H. right. exact Hy.
+Qed.
+
+(* an object whose own references resolve alike in two loads is loaded to the same value *)
+Lemma load_item_local o o' it :
+  (forall r, In r (it_refs it) -> resolve o r = resolve o' r) -> load_item o it = load_item o' it.
+Proof. intro H. unfold load_item. rewrite (omapM_ext _ _ _ H). reflexivity. Qed.
+
+Lemma load_doc_fuel mk d : load_doc mk d <> DOutOfFuel.
+Proof. apply run_steps_fuel. Qed.
+
+Lemma load_doc_contents mk d1 d2 :
+  (forall k, contents_of d1 k = contents_of d2 k) -> load_doc mk d1 = load_doc mk d2.
+Proof. intro H. unfold load_doc. apply run_steps_contents. exact H. Qed.
